@@ -50,7 +50,7 @@ const (
 	// chain lifecycle scenario: a chain that governance removes, one that it adds
 	// later, and an id no chain ever had
 	cOld, cNew, cNever = "old", "new", "zz"
-	nV     = 5 // v0..v3 carry the stake vectors; v4 (10^6, never in a scenario) only satisfies InitGenesis
+	nV                 = 5 // v0..v3 carry the stake vectors; v4 (10^6, never in a scenario) only satisfies InitGenesis
 	// the integer constant of the bridge contract: floor(2^33/3)
 	threshold = 2_863_311_530
 	month     = 31 * 24 * time.Hour
